@@ -168,3 +168,73 @@ func VerifC20EstimationIDs() {
 	_, ra := vRead("container", "iterateAllContainerSizes", e)
 	vAssert(len(ra.([]any)) == 1, "C20/iterateAllContainerSizes-returns-the-estimation")
 }
+
+// C20 estimation series: ONE node announces param 0 (3 or 4) times for one container with symbolic epochs 1..127 (any
+// order, repetitions allowed) and symbolic sizes. Reference model: an announcement for epoch e removes the
+// node's stored estimations of epochs more than 3 below e and stores (or overwrites) the one of e. After every
+// announcement the estimations of all announced epochs are read back. An announcement by a node of the previous
+// map for an existing container must be accepted whatever was announced before (beyond the statement, DESIGN.md 2.9).
+func VerifC20EstimationSeries() {
+	deployFS()
+	vAssume(alphaOn("netmap", "setConfig", []byte("id"), []byte("ContainerFee"), 0))
+	owner, node := vAcct("owner"), vAcct("node")
+	blob := cnrBlob("c", 0, owner)
+	vSign(vAlphabetAcct(), true)
+	ok, _ := vInvoke("container", "put", blob, vBytes("sig", 64), vKey("owner"), []byte{})
+	vAssume(ok)
+	cid := vSha256(blob)
+	vAssume(alphaOn("netmap", "addPeerIR", vBlob("node", 1)))
+	vAssume(alphaOn("netmap", "newEpoch", 1))
+	vAssume(alphaOn("netmap", "newEpoch", 2))
+	n := vParam(0)
+	var ep, sz [4]int
+	ep[0], ep[1], ep[2], ep[3] = vInt("e1"), vInt("e2"), vInt("e3"), vInt("e4")
+	sz[0], sz[1], sz[2], sz[3] = vInt("size1"), vInt("size2"), vInt("size3"), vInt("size4")
+	for i := 0; i < n; i++ {
+		vAssume(ep[i] >= 1 && ep[i] <= 127 && sz[i] >= 0 && sz[i] <= 1000000)
+	}
+	var live [4]bool // live[i]: the estimation announced by step i is stored (and not overwritten by a later step)
+	for i := 0; i < n; i++ {
+		vSign(node, true)
+		ok, _ = vInvoke("container", "putContainerSize", ep[i], cid, sz[i], vKey("node"))
+		vRequire(ok, "estimation-accepted")
+		vAssert(ok, "C20/operation-succeeds-exactly-when-documented")
+		vAssume(ok)
+		for j := 0; j < i; j++ {
+			if live[j] && (ep[i]-ep[j] > 3 || ep[i] == ep[j]) {
+				live[j] = false
+			}
+		}
+		live[i] = true
+		for j := 0; j <= i; j++ {
+			got := sizesOf(ep[j], cid)
+			// the estimation of epoch ep[j] is stored iff some live step announced that epoch; its size is that step's
+			want, size := false, 0
+			for k := 0; k <= i; k++ {
+				if live[k] && ep[k] == ep[j] {
+					want, size = true, sz[k]
+				}
+			}
+			if want {
+				vAssert(len(got) == 1 && got[0].Size == size && vEq(got[0].From, vKey("node")), "C20/estimations-returned-exactly-for-the-queried-epoch")
+			} else {
+				vAssert(len(got) == 0, "C20/announcement-removes-exactly-the-node's-estimations-older-than-the-delta")
+			}
+		}
+	}
+	vCoverIf(ep[0] == ep[1] && ep[2]-ep[0] > 3, "repeated-announcement-then-one-beyond-the-delta")
+	if n == 4 {
+		vCoverIf(ep[0] < ep[1] && ep[1] == ep[2] && ep[3]-ep[1] > 3, "second-epoch-repeated-then-one-beyond-the-delta")
+	}
+	vCoverIf(ep[0] < ep[1] && ep[1] < ep[2] && ep[2]-ep[0] > 3 && ep[2]-ep[1] <= 3, "older-of-two-removed-by-the-third")
+	// the tick's clean-up judges every stored estimation by its own epoch
+	tickE := vInt("tickEpoch")
+	vAssume(tickE >= 3 && tickE <= 140)
+	vAssume(alphaOn("netmap", "newEpoch", tickE))
+	for j := 0; j < n; j++ {
+		if live[j] {
+			after := sizesOf(ep[j], cid)
+			vAssert((len(after) == 0) == (tickE-ep[j] > 4), "C20/tick-removes-exactly-the-estimations-older-than-the-delta")
+		}
+	}
+}
